@@ -523,12 +523,12 @@ pub fn random_unit(property: &'static str, cases: u32, seed: u64, part: usize, a
 
 pub fn units(property: &'static str, thorough: bool, seed: u64) -> Vec<Unit> {
     let mut u = Vec::new();
-    let cases = if thorough { 8000 } else { 800 };
+    let cases = if thorough { 12000 } else { 2500 };
     for part in 0..14 {
         u.push(random_unit(property, cases, seed, part, false));
     }
     for part in 14..16 {
-        u.push(random_unit(property, if thorough { 200 } else { 20 }, seed, part, true));
+        u.push(random_unit(property, if thorough { 300 } else { 40 }, seed, part, true));
     }
     u
 }
